@@ -54,7 +54,7 @@ PROBES = [
     "frame_not_dividing_read_two_reads", "truncate_in_first_read", "truncate_on_read_boundary", "truncate_mid_frame",
     "truncate_zero_data", "big_endian", "header_2048_plus", "raw_codes_requested", "g711_all_codes", "multi_read",
     "bytesio", "fileobj", "suffix_inference", "magic_bytes_at_read_boundary", "frame_exceeds_read_size", "pipe",
-    "second_decode", "data_start_on_read_size_multiple",
+    "second_decode", "data_start_on_read_size_multiple", "decode_after_other_coding", "decode_after_same_coding",
 ]
 FAULT_KINDS = ["truncate", "short_file", "bad_magic", "small_hdrsize"]
 EXHAUSTIVE = {}
@@ -92,6 +92,8 @@ def generate(rng, tier, k):
         "coding_field": True if coding != "pcm" else rng.random() < 0.6,
         "seed": rng.randrange(1 << 30), "access": rng.choice(("path", "suffix", "fileobj", "bytesio", "bytesio", "pipe")),
         "second": rng.random() < 0.2,
+        # what the same process decoded before (module-level state such as lookup tables must not carry over)
+        "prior": rng.choice((None, None, None, "pcm", "ulaw", "alaw")),
         "dtype_req": None, "fault": None, "rate": rng.choice((8000, 16000, 44100)),
     }
     if rng.random() < 0.08 and n * fb > READ + 8:
@@ -290,6 +292,21 @@ def execute(scn, keep_trace=False):
             else:
                 src = path
                 kw["force_as"] = "sph"
+        if scn.get("prior"):
+            res.probe("decode_after_other_coding" if scn["prior"] != scn["coding"] else "decode_after_same_coding")
+            scn0 = dict(scn, coding=scn["prior"], order="10" if scn["prior"] == "pcm" else "1", channels=2, n=300,
+                        seed=int(scn["seed"]) ^ 0x777, fault=None, all_codes=False, magic_at=None, coding_field=True,
+                        hdr_blocks=1)
+            h0, b0, _, _ = build(scn0)
+            kw0 = {"force_as": "sph"}
+            if dt and (scn["prior"] == "pcm") == (scn["coding"] == "pcm"):
+                kw0["dtype"] = np.dtype(dt)
+            with warnings.catch_warnings():
+                warnings.simplefilter("ignore")
+                try:
+                    _util.read_signal(io.BytesIO(h0 + b0), **kw0)
+                except Exception:
+                    pass
         out = exc = None
         with warnings.catch_warnings(record=True) as wlist:
             warnings.simplefilter("always")
@@ -364,7 +381,7 @@ def minimise(scn, test, budget):
     scn = copy.deepcopy(scn)
     if not test(scn):
         return scn
-    for key, vals in ((("access",), ["bytesio"]), (("hdr_blocks",), [1]), (("extra",), [0]), (("dtype_req",), [None]),
+    for key, vals in ((("prior",), [None]), (("second",), [False]), (("access",), ["bytesio"]), (("hdr_blocks",), [1]), (("extra",), [0]), (("dtype_req",), [None]),
                       (("coding_field",), [True]), (("order",), ["01"] if scn["coding"] == "pcm" else ["1"])):
         scn = shrink.try_replace(scn, list(key), vals, test, budget)
     if scn.get("fault") and scn["fault"]["kind"] == "truncate":
